@@ -474,13 +474,14 @@ func C11(in *Info) (vs []V, antecedent bool) {
 			vs = append(vs, V{"C11", "age-syntax", path, fmt.Sprintf("Age %q is not delta-seconds; %s", ages[0], in.desc())})
 			return vs, true
 		}
-		lo := oracle.SatSub(in.Age.Low, time.Second+time.Second-1)
+		// the age at the moment the response is handed over (within one second)
+		lo := oracle.SatSub(in.AgeRet.Low, time.Second)
 		hi := oracle.SatAdd(in.AgeRet.High, time.Second)
 		if in.AgeRet.High == oracle.Forever {
 			hi = oracle.Forever
 		}
 		// a saturated age may be rendered as any value >= 2^31
-		if in.Age.Low >= (1<<31)*time.Second {
+		if in.AgeRet.Low >= (1<<31)*time.Second {
 			lo = (1 << 31) * time.Second
 		}
 		if a < lo || a > hi {
